@@ -26,7 +26,9 @@ class Fn:
     def __init__(self, path, ret=None, requires=(), ensures=(), loops=None, panics=None, valid='true',
                  closures=None, hints=(), attrs=(), rewrites=(), level='L0', r3_skip=(), inherent=False,
                  shape=None, pre_body='', decreases=None, name_as=None, generics=None, no_unwind=None,
-                 sig_sub=(), mut_params=(), float_casts=(), companion=None, rej_clause=True):
+                 sig_sub=(), mut_params=(), float_casts=(), companion=None, rej_clause=True, impl_items=None, trait_requires=False):
+        self.impl_items = impl_items
+        self.trait_requires = trait_requires
         self.rej_clause = rej_clause
         self.companion = companion
         self.float_casts = tuple(float_casts)
@@ -63,7 +65,8 @@ class Fn:
 
 class Unit:
     def __init__(self, name, prop, prove, use=(), types=(), spec='', preludes=('fax_l0', 'stdspec'), level='L0',
-                 broadcast=('l0',), consts=(), extra_modules='', notes='', rlimit=30, raw_items=(), type_spec=''):
+                 broadcast=('l0',), consts=(), extra_modules='', notes='', rlimit=30, raw_items=(), type_spec='', traits=()):
+        self.traits = list(traits)
         self.consts = list(consts)
         self.type_spec = type_spec
         self.name = name
@@ -408,6 +411,32 @@ class Gen:
                 t = t[:body_open + 1] + '\n' + '\n'.join(fields) + '\n}'
         return 'pub ' + rules.r8r9_paths(t, path, rules.Log())
 
+    def check_trait(self, path, annotated):
+        """the annotated trait (with spec members and contracts) must declare exactly the fn signatures of the real trait"""
+        c = self.crate
+        try:
+            it, _ = c.find(path)
+        except KeyError as e:
+            raise AnchorError('lost anchor: %s' % e)
+        from .rsrc import items
+
+        def sigs(src, m, a, b):
+            out = set()
+            for sub in items(src, m, a, b):
+                if sub.kind == 'fn':
+                    sg = ' '.join(src[sub.start:(sub.body_open if sub.body_open else sub.end - 1)].split())
+                    sg = re.sub(r'\s*(requires|ensures)\b.*$', '', sg)
+                    sg = re.sub(r'->\s*\(\w+:\s*([^)]*)\)', r'-> \1', sg)
+                    if not sg.startswith('spec fn') and not sg.startswith('open spec') and ' spec fn ' not in ' ' + sg:
+                        out.add(sg.strip())
+            return out
+        real = sigs(c.src, c.m, it.body_open + 1, it.body_close)
+        am = mask(annotated)
+        ob = am.index('{')
+        mine = sigs(annotated, am, ob + 1, match_close(am, ob))
+        if real != mine:
+            raise AnchorError('trait %s: declared fns differ from the annotated trait: real=%s annotated=%s' % (path, sorted(real), sorted(mine)))
+
     def const_text(self, path):
         """crate-level `const NAME: f64 = INIT;` -> exec accessor c_NAME() + spec constant k_NAME() + an axiom for its
         real value derived mechanically from INIT (decimal literals, + - * / of them, PI)"""
@@ -529,26 +558,28 @@ class Gen:
             bc.append('ax_vector_refl')
         if bc:
             parts.append('/*BROADCAST:%s*/' % ','.join(bc))
+        for tpath, ttext in unit.traits:
+            self.check_trait(tpath, ttext)
+            parts.append('//@trait %s (annotated with specification members; fn signatures checked against the real trait)' % tpath)
+            parts.append(ttext)
         for raw in unit.raw_items:
             parts.append(raw)
         parts.append('// ---- specification text (hand-written: spec fns and lemmas, no executable code) ----')
         parts.append(unit.spec)
         # group functions by impl header
-        groups = {}   # header -> (is_trait, assoc, [texts])
+        groups = {}   # header -> (is_trait, assoc, [texts], [fn objects])
         order = []
         for fn, stub in [(f, True) for f in unit.use] + [(f, False) for f in unit.prove]:
             header, is_trait, assoc, text = self.fn_text(fn, stub=stub)
-            if is_trait:
-                key = (header, fn.path)     # each trait impl is emitted on its own
-            else:
-                key = (header, None)
+            key = header
             if key not in groups:
-                groups[key] = (is_trait, assoc, [])
+                groups[key] = (is_trait, assoc, [], [])
                 order.append(key)
             groups[key][2].append(text)
+            groups[key][3].append(fn)
         for key in order:
-            header = key[0]
-            is_trait, assoc, texts = groups[key]
+            header = key
+            is_trait, assoc, texts, fobjs = groups[key]
             if header is None:
                 parts += texts
             else:
@@ -557,10 +588,15 @@ class Gen:
                 if is_trait:
                     for k, v in assoc.items():
                         parts.append('    type %s = %s;' % (k, v))
+                    seen_items = []
+                    for fo in fobjs:
+                        if fo.impl_items and fo.impl_items not in seen_items:
+                            seen_items.append(fo.impl_items)
+                            parts.append(fo.impl_items)
                 parts += texts
                 parts.append('}')
                 if is_trait:
-                    fobj = [f for f in unit.use + unit.prove if f.path == key[1]][0]
+                    fobj = fobjs[0]
                     comp = r13_companion(h, fobj)
                     if fobj.companion:
                         comp = fobj.companion
